@@ -38,9 +38,11 @@ def _random(rng, n):
     for _ in range(n):
         lk, rk = jc.random_keys(rng)
         kind = rng.choice(["left", "full"])
-        yield {"fam": kind + ".random", "kind": kind,
+        spec = {"fam": kind + ".random", "kind": kind,
                "expect": "many_to_many" if rng.random() < 0.85 else rng.choice(jc.EXPECTS),
                "lk": lk, "rk": rk, "v": rng.randrange(NVARIANTS), "swap": kind == "full"}
+        # every 5th random case is run 'warm': an earlier join on the same objects, then in-place key edits
+        yield jc.add_warm(rng, spec) if rng.random() < 0.2 else spec
 
 
 def generate(rng, tier):
